@@ -247,6 +247,9 @@ func runC18(c *Ctx) {
 			}
 			nNarrow++
 			src := exprString(call.Args[0])
+			if slack, repoConst, okS := rangeCheckSlack(info, t.Decl, call, call.Args[0], tb); okS && !repoConst {
+				c.S.Check(slack == 0, "R3", layout.FuncName(t.Fn)+":narrowing "+src+" refuses only what does not fit", c.pos(call.Pos()), "the refusing threshold is the field's capacity", fmt.Sprintf("the range check in front of the %d-bit narrowing of %s turns away %d value(s) that fit the field: an in-range value the decoder accepts cannot be encoded", tb, src, slack))
+			}
 			ok = hasRangeCheck(info, t.Decl, call, call.Args[0], tb)
 			c.S.Check(ok, "R3", layout.FuncName(t.Fn)+":narrowing "+src, c.pos(call.Pos()), fmt.Sprintf("%s is range-checked before being narrowed to %d bits", src, tb), fmt.Sprintf("%s is narrowed to %d bits with no preceding range check: an out-of-range value is silently truncated instead of refused", src, tb))
 			return true
@@ -296,6 +299,11 @@ func runC18(c *Ctx) {
 					}
 					nStreamNarrow++
 					src := exprString(call.Args[0])
+					// exactness: the check refuses what does not fit and nothing else (a threshold that is a constant of
+					// this repository is a format limit chosen on purpose and is left alone)
+					if slack, repoConst, okS := rangeCheckSlack(info, fd, call, call.Args[0], tb); okS && !repoConst {
+						c.S.Check(slack == 0, "R3", fname+":narrowing "+src+" refuses only what does not fit", c.pos(call.Pos()), "the refusing threshold is the field's capacity", fmt.Sprintf("the range check in front of the %d-bit narrowing of %s turns away %d value(s) that fit the field: an in-range value the decoder accepts cannot be encoded", tb, src, slack))
+					}
 					c.S.Check(hasRangeCheck(info, fd, call, call.Args[0], tb), "R3", fname+":narrowing "+src, c.pos(call.Pos()), fmt.Sprintf("%s is range-checked before being narrowed to %d bits", src, tb), fmt.Sprintf("%s is narrowed to %d bits with no preceding range check of that very expression: an out-of-range value wraps in the encoding instead of being refused", src, tb))
 					return true
 				})
@@ -756,6 +764,67 @@ func runC18(c *Ctx) {
 			}
 			return false
 		}
+		// errors thrown away on purpose: only of callees that cannot fail on what they are given here. Looked for in the
+		// stream codecs and in the layout / firmware-analysis packages (a decoder that gains a second way to fail while a
+		// caller still drops its error hands a nil or half-filled record on).
+		nDiscard := 0
+		for _, f := range c.P.RepoFunctions() {
+			switch load.RelPkg(f) {
+			case "eventlog", "extract/eventlog", "ovmf/abi", "ovmf", "sev", "tdx":
+			default:
+				continue
+			}
+			if c.isTestFunc(f) || f.Blocks == nil {
+				continue
+			}
+			for _, call := range callsIn(f, func(call ssa.CallInstruction) bool {
+				if _, isDefer := call.(*ssa.Defer); isDefer {
+					return false
+				}
+				if _, isB := call.Common().Value.(*ssa.Builtin); isB {
+					return false
+				}
+				if errIndex(call.Common().Signature()) < 0 || !errDiscarded(call) {
+					return false
+				}
+				// inside the stream codecs: every discarded error; elsewhere: the discarded errors of decoders of the
+				// layout / stream codec packages (functions handed bytes that return a value and an error)
+				if rel := load.RelPkg(f); rel == "eventlog" || rel == "extract/eventlog" {
+					return true
+				}
+				cal := call.Common().StaticCallee()
+				if cal == nil || (load.RelPkg(cal) != "ovmf/abi" && load.RelPkg(cal) != "eventlog") || cal.Signature.Results().Len() < 2 {
+					return false
+				}
+				for _, p := range cal.Params {
+					if p.Type().String() == "[]byte" || p.Type().String() == "io.Reader" {
+						return true
+					}
+				}
+				return false
+			}) {
+				why := ""
+				cal := call.Common().StaticCallee()
+				args := call.Common().Args
+				switch {
+				case cal != nil && load.FuncInRepo(cal) && cal.Blocks != nil:
+					if pi, k, exact, ok := failsOnLengthAlone(cal); ok && pi < len(args) {
+						if w := fixedWidth(args[pi]); w > 0 && ((exact && w == k) || (!exact && w >= k)) {
+							why = fmt.Sprintf("%s fails on the length of its argument alone (needs %d bytes) and is given exactly %d", cal.Name(), k, w)
+						}
+					}
+				case cal != nil && cal.String() == "io.ReadAll" && len(args) == 1 && inMemoryReader(args[0]):
+					why = "io.ReadAll over an in-memory reader cannot fail"
+				case cal != nil && cal.Pkg != nil && (cal.Pkg.Pkg.Path() == "fmt" || cal.Pkg.Pkg.Path() == "bytes" || cal.Pkg.Pkg.Path() == "strings" || cal.Pkg.Pkg.Path() == "hash" || cal.Pkg.Pkg.Path() == "crypto/sha512"):
+					why = "writes to an in-memory buffer / hash / formatted output"
+				case call.Common().IsInvoke() && (call.Common().Method.Name() == "Write" || call.Common().Method.Name() == "WriteTo") && inMemoryWriter(call.Common().Value):
+					why = "writes to an in-memory buffer / hash"
+				}
+				nDiscard++
+				c.S.Check(why != "", "R13", load.FuncName(f)+":discarded error of "+callName(call), c.pos(call.Pos()), "infallible here: "+why, "the error of "+callName(call)+" is thrown away and the callee can fail on this operand: a malformed value is encoded / a short input decoded as if nothing had happened")
+			}
+		}
+		c.S.Floor("R13", "discarded errors examined in the codec and layout packages", 3, nDiscard)
 		for _, f := range c.P.RepoFunctions() {
 			switch load.RelPkg(f) {
 			case "eventlog", "extract/eventlog":
@@ -774,29 +843,6 @@ func runC18(c *Ctx) {
 				}
 				return errIndex(call.Common().Signature()) >= 0 && !eofTested(call) && !errDiscarded(call)
 			})
-			// errors thrown away on purpose: only of callees that cannot fail on what they are given here
-			for _, call := range callsIn(f, func(call ssa.CallInstruction) bool {
-				if _, isDefer := call.(*ssa.Defer); isDefer {
-					return false
-				}
-				if _, isB := call.Common().Value.(*ssa.Builtin); isB {
-					return false
-				}
-				return errIndex(call.Common().Signature()) >= 0 && errDiscarded(call)
-			}) {
-				why := ""
-				cal := call.Common().StaticCallee()
-				args := call.Common().Args
-				switch {
-				case cal != nil && load.RelPkg(cal) == "ovmf/abi" && (cal.Name() == "FromEFIGUID" || cal.Name() == "PutUUID") && len(args) > 0 && fixedWidth(args[0]) == 16:
-					why = cal.Name() + " fails on length alone and is given exactly 16 bytes"
-				case cal != nil && cal.String() == "io.ReadAll" && len(args) == 1 && inMemoryReader(args[0]):
-					why = "io.ReadAll over an in-memory reader cannot fail"
-				case cal != nil && cal.Pkg != nil && (cal.Pkg.Pkg.Path() == "fmt" || cal.Pkg.Pkg.Path() == "bytes" || cal.Pkg.Pkg.Path() == "strings"):
-					why = "writes to an in-memory buffer / formatted output"
-				}
-				c.S.Check(why != "", "R13", load.FuncName(f)+":discarded error of "+callName(call), c.pos(call.Pos()), "infallible here: "+why, "the error of "+callName(call)+" is thrown away and the callee can fail on this operand: a malformed value is encoded / a short input decoded as if nothing had happened")
-			}
 			if len(steps) == 0 {
 				continue
 			}
@@ -1389,6 +1435,48 @@ func hasRangeCheck(info *types.Info, fd *ast.FuncDecl, at ast.Node, src ast.Expr
 	return found
 }
 
+// rangeCheckSlack: how many in-range values the refusing threshold of the narrowing's range check turns away
+// (0 = the check refuses exactly what does not fit), and whether the threshold is a constant declared in this
+// repository (a format limit chosen on purpose). ok=false if no constant threshold was found.
+func rangeCheckSlack(info *types.Info, fd *ast.FuncDecl, at ast.Node, src ast.Expr, bits int) (slack int64, repoConst, ok bool) {
+	want := exprString(src)
+	ast.Inspect(fd.Body, func(n ast.Node) bool {
+		is, isIf := n.(*ast.IfStmt)
+		if !isIf || is.Pos() >= at.Pos() {
+			return true
+		}
+		be, isBin := ast.Unparen(is.Cond).(*ast.BinaryExpr)
+		if !isBin || (be.Op != token.GEQ && be.Op != token.GTR) || exprString(be.X) != want {
+			return true
+		}
+		tv := info.Types[be.Y]
+		if tv.Value == nil {
+			return true
+		}
+		k, _ := constant.Int64Val(constant.ToInt(tv.Value))
+		limit := int64(1) << uint(bits)
+		first := k // first refused value
+		if be.Op == token.GTR {
+			first = k + 1
+		}
+		if first > limit {
+			return true
+		}
+		slack, ok = limit-first, true
+		repoConst = false
+		ast.Inspect(be.Y, func(m ast.Node) bool {
+			if id, isId := m.(*ast.Ident); isId {
+				if obj, isC := info.Uses[id].(*types.Const); isC && obj.Pkg() != nil && strings.HasPrefix(obj.Pkg().Path(), "github.com/google/gce-tcb-verifier") {
+					repoConst = true
+				}
+			}
+			return true
+		})
+		return true
+	})
+	return slack, repoConst, ok
+}
+
 func recvTypeName(fd *ast.FuncDecl) string {
 	if fd.Recv == nil || len(fd.Recv.List) == 0 {
 		return ""
@@ -1874,4 +1962,121 @@ func c18SizedNotSearched(c *Ctx) {
 	if nBad == 0 {
 		c.S.OK("R14", "eventlog, ovmf/abi:sized fields are cut by size", "", fmt.Sprintf("no content search in %d decoding functions", nDec), true)
 	}
+}
+
+// failsOnLengthAlone: every error return of g stands on the failing edge of one comparison of len(parameter pi) with
+// a constant k (len < k, or len != k when exact) and g has no other way to fail. Returns the parameter, k, whether
+// the length must match exactly, and ok.
+func failsOnLengthAlone(g *ssa.Function) (pi int, k int64, exact, ok bool) {
+	ei := errIndex(g.Signature)
+	if ei < 0 || g.Blocks == nil {
+		return 0, 0, false, false
+	}
+	pi, k = -1, 0
+	nErr := 0
+	for _, b := range g.Blocks {
+		ret, isRet := b.Instrs[len(b.Instrs)-1].(*ssa.Return)
+		if !isRet || isNilK(ret.Results[ei]) {
+			continue
+		}
+		nErr++
+		found := false
+		for _, cf := range dominatingConds(b) {
+			bo, isB := cf.Cond.(*ssa.BinOp)
+			if !isB {
+				continue
+			}
+			x, isLen := lenArg(stripConv(bo.X))
+			kk, isK := constInt(stripConv(bo.Y))
+			if !isLen || !isK {
+				continue
+			}
+			prm, isP := x.(*ssa.Parameter)
+			if !isP {
+				continue
+			}
+			idx := -1
+			for i, q := range g.Params {
+				if q == prm {
+					idx = i
+				}
+			}
+			op := bo.Op
+			if !cf.Val {
+				op = negOp(op)
+			}
+			switch op {
+			case token.LSS:
+				if pi >= 0 && (pi != idx || kk != k || exact) {
+					return 0, 0, false, false
+				}
+				pi, k, found = idx, kk, true
+			case token.NEQ:
+				if pi >= 0 && (pi != idx || kk != k || !exact) {
+					return 0, 0, false, false
+				}
+				pi, k, exact, found = idx, kk, true, true
+			}
+		}
+		if !found {
+			// a wrapper: the error is the one of a callee that fails on the length of the same parameter alone
+			for _, cf := range dominatingConds(b) {
+				bo, isB := cf.Cond.(*ssa.BinOp)
+				if !isB || !isNilK(bo.Y) || (bo.Op == token.NEQ) != cf.Val {
+					continue
+				}
+				ex, isEx := bo.X.(*ssa.Extract)
+				if !isEx {
+					continue
+				}
+				hc, isCall := ex.Tuple.(*ssa.Call)
+				if !isCall {
+					continue
+				}
+				h := hc.Call.StaticCallee()
+				if h == nil || h == g || !load.FuncInRepo(h) || ex.Index != errIndex(h.Signature) {
+					continue
+				}
+				hpi, hk, hexact, hok := failsOnLengthAlone(h)
+				if !hok || hpi >= len(hc.Call.Args) {
+					continue
+				}
+				prm, isP := hc.Call.Args[hpi].(*ssa.Parameter)
+				if !isP {
+					continue
+				}
+				idx := -1
+				for i, q := range g.Params {
+					if q == prm {
+						idx = i
+					}
+				}
+				if idx < 0 || (pi >= 0 && (pi != idx || hk != k || hexact != exact)) {
+					continue
+				}
+				pi, k, exact, found = idx, hk, hexact, true
+			}
+		}
+		if !found {
+			return 0, 0, false, false
+		}
+	}
+	if nErr == 0 || pi < 0 {
+		return 0, 0, false, false
+	}
+	return pi, k, exact, true
+}
+
+// inMemoryWriter: the value is (an interface over) a *bytes.Buffer or a hash.Hash.
+func inMemoryWriter(v ssa.Value) bool {
+	for i := 0; i < 3; i++ {
+		switch x := v.(type) {
+		case *ssa.MakeInterface:
+			v = x.X
+		case *ssa.ChangeInterface:
+			v = x.X
+		}
+	}
+	t := v.Type().String()
+	return t == "*bytes.Buffer" || t == "hash.Hash" || strings.HasSuffix(t, "strings.Builder")
 }
